@@ -468,7 +468,7 @@ fn c14_qpack_int_roundtrip_n8() {
     qpack_int_roundtrip::<8>()
 }
 
-// @h props=C14 tier=quick t=120 expect=fail sub=twin
+// @h props=C14 tier=quick t=900 expect=fail sub=twin
 // @fn wtransport-proto/src/varint.rs VarInt::size
 // @bound twin: claims every varint fits 4 bytes; must be refuted
 #[kani::proof]
